@@ -17,9 +17,11 @@ import (
 	"bytes"
 	"context"
 	"encoding/json"
+	"errors"
 	"fmt"
 	"net/http"
 	"net/http/httptest"
+	"log/slog"
 	"strconv"
 	"strings"
 	"sync"
@@ -27,6 +29,7 @@ import (
 	"testing/synctest"
 	"time"
 
+	"github.com/modelcontextprotocol/go-sdk/internal/jsonrpc2"
 	"github.com/modelcontextprotocol/go-sdk/jsonrpc"
 )
 
@@ -100,7 +103,11 @@ func khRunSrvHTTP(t *testing.T, c *khCase) (obs string) {
 				return next(ctx, method, req)
 			}
 		})
-		handler := NewStreamableHTTPHandler(func(*http.Request) *Server { return server }, &StreamableHTTPOptions{DisableLocalhostProtection: true, Logger: kaLogger})
+		hopts := &StreamableHTTPOptions{DisableLocalhostProtection: true, Logger: kaLogger}
+		if c.mode == "store" {
+			hopts.EventStore = NewMemoryEventStore(nil)
+		}
+		handler := NewStreamableHTTPHandler(func(*http.Request) *Server { return server }, hopts)
 		sid := ""
 		post := func(body string) *httptest.ResponseRecorder {
 			req := httptest.NewRequest(http.MethodPost, "http://srv.example/mcp", strings.NewReader(body))
@@ -187,7 +194,7 @@ func khRunSrvHTTP(t *testing.T, c *khCase) (obs string) {
 		go func() { // the client's connectivity script
 			open := true
 			for k := 1; k <= len(c.wire)+1; k++ {
-				away := k <= len(c.wire) && c.wire[k-1].kind == 'R'
+				away := k <= len(c.wire) && (c.wire[k-1].kind == 'R' || c.wire[k-1].kind == 'G')
 				at := time.Duration(int64(k)*c.I - c.I/4)
 				select {
 				case <-time.After(time.Until(t0.Add(time.Duration(start) + at))):
@@ -234,4 +241,348 @@ func khRunSrvHTTP(t *testing.T, c *khCase) (obs string) {
 		obs = fmt.Sprintf("pings=%s to=- close=%s exit=1 late=%d", kaInts(pings), closed, len(attempts)-before)
 	})
 	return obs
+}
+
+// khRunStateless: `mode=stateless`. A stateless StreamableHTTPHandler serves every POST with a temporary session
+// (Server.Connect, so keep-alive is started); the POST is a tools/call whose handler runs until `tc`. That session
+// can make no requests: every keep-alive ping is refused by its transport, and after T of them keep-alive closes the
+// session under the running call (ServerSession.Close is graceful: it returns, and Wait with it, only when the
+// running handler is done; so "closed by keep-alive" is read off the loop's own ERROR record "closing session").
+// Observed: the ping attempts (relative to the session's Connect), the instant of that record.
+func khRunStateless(t *testing.T, c *khCase) (obs string) {
+	obs = "panic"
+	synctest.Test(t, func(t *testing.T) {
+		defer func() {
+			if r := recover(); r != nil {
+				obs = "panic"
+			}
+		}()
+		I := time.Duration(c.I)
+		t0 := time.Now()
+		var mu sync.Mutex
+		var attempts []int64
+		var ss *ServerSession
+		closedAt := int64(-1)
+		logger := slog.New(khLogTap(func(r slog.Record) {
+			if r.Level >= slog.LevelError && strings.Contains(r.Message, "closing session") {
+				mu.Lock()
+				if closedAt < 0 {
+					closedAt = time.Since(t0).Nanoseconds()
+				}
+				mu.Unlock()
+			}
+		}))
+		server := NewServer(&Implementation{Name: "s", Version: "1"}, &ServerOptions{KeepAlive: I, KeepAliveFailureThreshold: c.T, Logger: logger})
+		server.AddSendingMiddleware(func(next MethodHandler) MethodHandler {
+			return func(ctx context.Context, method string, req Request) (Result, error) {
+				if method == "ping" {
+					mu.Lock()
+					attempts = append(attempts, time.Since(t0).Nanoseconds())
+					mu.Unlock()
+				}
+				return next(ctx, method, req)
+			}
+		})
+		done := make(chan struct{})
+		defer close(done)
+		server.AddTool(&Tool{Name: "park", InputSchema: json.RawMessage(`{"type":"object"}`)}, func(ctx context.Context, req *CallToolRequest) (*CallToolResult, error) {
+			mu.Lock()
+			ss = req.Session
+			mu.Unlock()
+			select {
+			case <-time.After(time.Duration(c.tc)):
+			case <-ctx.Done():
+			case <-done:
+			}
+			return &CallToolResult{}, nil
+		})
+		handler := NewStreamableHTTPHandler(func(*http.Request) *Server { return server }, &StreamableHTTPOptions{Stateless: true, DisableLocalhostProtection: true, Logger: kaLogger})
+		req := httptest.NewRequest(http.MethodPost, "http://srv.example/mcp", strings.NewReader(`{"jsonrpc":"2.0","id":1,"method":"tools/call","params":{"name":"park","arguments":{}}}`))
+		req.Header.Set("Content-Type", "application/json")
+		req.Header.Set("Accept", "application/json, text/event-stream")
+		req.Header.Set("Mcp-Protocol-Version", c.pv)
+		rec := httptest.NewRecorder()
+		postDone := make(chan struct{})
+		go func() {
+			defer close(postDone)
+			defer func() { recover() }()
+			handler.ServeHTTP(rec, req)
+		}()
+		time.Sleep(time.Duration(c.tc) - 1)
+		synctest.Wait()
+		mu.Lock()
+		ca, before, sess := closedAt, len(attempts), ss
+		mu.Unlock()
+		if sess == nil {
+			obs = "connect-failed"
+			return
+		}
+		time.Sleep(1)
+		synctest.Wait()
+		<-postDone
+		time.Sleep(3 * I)
+		synctest.Wait()
+		mu.Lock()
+		defer mu.Unlock()
+		closed := "-"
+		if ca >= 0 {
+			closed = strconv.FormatInt(ca, 10)
+		}
+		obs = fmt.Sprintf("pings=%s to=- close=%s exit=1 late=%d", kaInts(attempts[:before]), closed, len(attempts)-before)
+	})
+	return obs
+}
+
+// khLogTap is a slog.Handler that hands every record to f.
+type khLogTap func(slog.Record)
+
+func (f khLogTap) Enabled(context.Context, slog.Level) bool        { return true }
+func (f khLogTap) Handle(_ context.Context, r slog.Record) error { f(r); return nil }
+func (f khLogTap) WithAttrs([]slog.Attr) slog.Handler             { return f }
+func (f khLogTap) WithGroup(string) slog.Handler                  { return f }
+
+// khRunDelete: keep-alive versus Close on the HTTP path (records `kss side=s … scn=shttp|…`, judged by the session-level
+// clauses of the monitor). The same set-up as khRunSrvHTTP (stateful, optionally with an EventStore); the client's
+// DELETE arrives at `tc` — generated to fall while a ping is in flight (unanswered, answered late, or stored because
+// the client has no standalone stream), or between two ticks. Observed like the stream `sessions`: every ping
+// attempt of the server session (instant, what it was given until its deadline, result class, duration), every
+// keep-alive log record, the instant the session's Wait returned, the presence of a startKeepalive goroutine
+// right after the DELETE was served, just before the horizon and after the final Close; attempts and records after
+// that.
+func khRunDelete(t *testing.T, c *khCase) (op, obs string) {
+	scn := "shttp|" + strings.ReplaceAll(strings.TrimPrefix(c.op(), "kas "), " ", "|")
+	op = fmt.Sprintf("kss side=s I=%d T=%d script=- cancel=1 at=-,1 scn=%s", c.I, c.T, scn)
+	obs = "panic"
+	synctest.Test(t, func(t *testing.T) {
+		defer func() {
+			if r := recover(); r != nil {
+				obs = "panic"
+			}
+		}()
+		I := time.Duration(c.I)
+		t0 := time.Now()
+		now := func() int64 { return time.Since(t0).Nanoseconds() }
+		var mu sync.Mutex
+		var pings []ksPing
+		var warns, errs []int64
+		over, late := false, 0
+		shut := int64(-1)
+		logger := slog.New(khLogTap(func(r slog.Record) {
+			if !strings.HasPrefix(r.Message, "keepalive") {
+				return
+			}
+			mu.Lock()
+			defer mu.Unlock()
+			switch {
+			case over:
+				late++
+			case r.Level >= slog.LevelError:
+				errs = append(errs, now())
+			default:
+				warns = append(warns, now())
+			}
+		}))
+		server := NewServer(&Implementation{Name: "s", Version: "1"}, &ServerOptions{KeepAlive: I, KeepAliveFailureThreshold: c.T, Logger: logger})
+		server.AddSendingMiddleware(func(next MethodHandler) MethodHandler {
+			return func(ctx context.Context, method string, req Request) (Result, error) {
+				if method != "ping" {
+					return next(ctx, method, req)
+				}
+				mu.Lock()
+				if over {
+					late++
+					mu.Unlock()
+					return next(ctx, method, req)
+				}
+				mu.Unlock()
+				at := now()
+				to := int64(-1 << 62)
+				if dl, ok := ctx.Deadline(); ok {
+					to = dl.Sub(t0).Nanoseconds() - at
+				}
+				res, err := next(ctx, method, req)
+				k := byte('a')
+				if err != nil {
+					k = 'e'
+					if errors.Is(err, jsonrpc2.ErrMethodNotFound) {
+						k = 'm'
+					}
+				}
+				mu.Lock()
+				pings = append(pings, ksPing{at: at, dur: now() - at, to: to, kind: k})
+				mu.Unlock()
+				return res, err
+			}
+		})
+		hopts := &StreamableHTTPOptions{DisableLocalhostProtection: true, Logger: kaLogger}
+		if c.mode == "store" {
+			hopts.EventStore = NewMemoryEventStore(nil)
+		}
+		handler := NewStreamableHTTPHandler(func(*http.Request) *Server { return server }, hopts)
+		sid := ""
+		post := func(body string) *httptest.ResponseRecorder {
+			req := httptest.NewRequest(http.MethodPost, "http://srv.example/mcp", strings.NewReader(body))
+			req.Header.Set("Content-Type", "application/json")
+			req.Header.Set("Accept", "application/json, text/event-stream")
+			if sid != "" {
+				req.Header.Set("Mcp-Session-Id", sid)
+				req.Header.Set("Mcp-Protocol-Version", c.pv)
+			}
+			rec := httptest.NewRecorder()
+			handler.ServeHTTP(rec, req)
+			return rec
+		}
+		rec := post(fmt.Sprintf(`{"jsonrpc":"2.0","id":1,"method":"initialize","params":{"protocolVersion":%q,"capabilities":{},"clientInfo":{"name":"peer","version":"1"}}}`, c.pv))
+		sid = rec.Header().Get("Mcp-Session-Id")
+		if rec.Code != http.StatusOK || sid == "" {
+			obs = "connect-failed"
+			return
+		}
+		post(`{"jsonrpc":"2.0","method":"notifications/initialized","params":{}}`)
+		var ss *ServerSession
+		for s := range server.Sessions() {
+			ss = s
+		}
+		if ss == nil {
+			obs = "connect-failed"
+			return
+		}
+		phi := now()
+		go func() {
+			ss.Wait()
+			mu.Lock()
+			shut = now()
+			mu.Unlock()
+		}()
+		onData := func(data []byte) {
+			msg, err := jsonrpc.DecodeMessage(data)
+			req, ok := msg.(*jsonrpc.Request)
+			if err != nil || !ok || !req.IsCall() || req.Method != "ping" {
+				return
+			}
+			k := int((now() - phi + c.I/2) / c.I)
+			st := khStep{kind: 'n'}
+			if k >= 1 && k <= len(c.wire) {
+				st = c.wire[k-1]
+			}
+			idb, _ := json.Marshal(req.ID.Raw())
+			go func() {
+				time.Sleep(time.Duration(st.d))
+				switch st.kind {
+				case 'j':
+					post(fmt.Sprintf(`{"jsonrpc":"2.0","id":%s,"result":{}}`, idb))
+				case 'J':
+					post(fmt.Sprintf(`{"jsonrpc":"2.0","id":%s,"error":{"code":-32601,"message":"Method not found: ping"}}`, idb))
+				case 'x':
+					post(fmt.Sprintf(`{"jsonrpc":"2.0","id":%s,"error":{"code":-32603,"message":"peer failure"}}`, idb))
+				}
+			}()
+		}
+		var getCancel context.CancelFunc
+		openGet := func() {
+			ctx, cancel := context.WithCancel(context.Background())
+			getCancel = cancel
+			req := httptest.NewRequest(http.MethodGet, "http://srv.example/mcp", nil).WithContext(ctx)
+			req.Header.Set("Accept", "text/event-stream")
+			req.Header.Set("Mcp-Session-Id", sid)
+			req.Header.Set("Mcp-Protocol-Version", c.pv)
+			w := &khStreamRW{hdr: http.Header{}, onData: onData}
+			go func() {
+				defer func() { recover() }()
+				handler.ServeHTTP(w, req)
+			}()
+		}
+		openGet()
+		synctest.Wait()
+		done := make(chan struct{})
+		go func() {
+			open := true
+			for k := 1; k <= len(c.wire)+1; k++ {
+				away := k <= len(c.wire) && (c.wire[k-1].kind == 'R' || c.wire[k-1].kind == 'G')
+				select {
+				case <-time.After(time.Until(t0.Add(time.Duration(phi + int64(k)*c.I - c.I/4)))):
+				case <-done:
+					return
+				}
+				if away && open {
+					getCancel()
+					open = false
+				} else if !away && !open {
+					openGet()
+					open = true
+				}
+			}
+		}()
+		loops := func() int {
+			n := 0
+			for _, v := range ksLoops() {
+				n += v
+			}
+			return n
+		}
+		time.Sleep(time.Duration(c.tc))
+		synctest.Wait()
+		callAt := now()
+		close(done)
+		{ // the client ends the session
+			req := httptest.NewRequest(http.MethodDelete, "http://srv.example/mcp", nil)
+			req.Header.Set("Mcp-Session-Id", sid)
+			req.Header.Set("Mcp-Protocol-Version", c.pv)
+			handler.ServeHTTP(httptest.NewRecorder(), req)
+		}
+		getCancel()
+		synctest.Wait()
+		s1, live1 := now(), loops()
+		T := c.T
+		if T < 1 {
+			T = 1
+		}
+		time.Sleep(time.Duration(int64(T+2) * c.I))
+		synctest.Wait()
+		s2, live2 := now(), loops()
+		ss.Close()
+		synctest.Wait()
+		mu.Lock()
+		over = true
+		mu.Unlock()
+		time.Sleep(time.Duration(int64(T+3) * c.I))
+		synctest.Wait()
+		live3 := loops()
+		mu.Lock()
+		defer mu.Unlock()
+		cancel := callAt - phi
+		var script []kaStep
+		var at, tos []int64
+		inflight := false
+		for _, p := range pings {
+			script = append(script, kaStep{p.kind, p.dur})
+			at = append(at, p.at)
+			tos = append(tos, p.to)
+			if p.at < callAt && callAt <= p.at+p.dur {
+				inflight = true
+			}
+		}
+		for n := 0; n < 1000; n++ { // pings that were due before the DELETE and were not tried
+			starts, _ := kaSchedule(c.I, append(script[:len(script):len(script)], kaStep{'x', 0}))
+			if starts[len(script)] >= cancel {
+				break
+			}
+			script = append(script, kaStep{'x', 0})
+		}
+		sh := "-"
+		if shut >= 0 {
+			sh = strconv.FormatInt(shut-phi, 10)
+		}
+		exit := 1
+		if live3 > 0 {
+			exit = 0
+		}
+		op = fmt.Sprintf("kss side=s I=%d T=%d script=%s cancel=%d at=%d,%d scn=%s", c.I, c.T, strings.ReplaceAll(ksSteps(script), ".", ","), cancel, s1-phi, s2-phi, scn)
+		obs = fmt.Sprintf("pings=%s to=%s close=%s exit=%d late=%d warn=%s shut=%s live=%d%d wblk=-", ksLocal(at, phi), kaTos(tos), ksLocal(errs, phi), exit, late,
+			ksLocal(warns, phi), sh, min(live1, 1), min(live2, 1))
+		if inflight {
+			obs += "" // (tagged by the caller)
+		}
+	})
+	return op, obs
 }
